@@ -13,9 +13,12 @@ import (
 
 // Names: a small pool, so that re-loading, removing and extending the same names happens all the time.
 var (
-	tplNames  = []string{"t0", "t1", "t2", "t3", "t4"}
-	concNames = []string{"m0", "m1", "m2", "m3", "m4"} // loaded / removed only by the concurrent phase
-	roomyName = "d0"                                   // the document template loaded after the drawn part of the history
+	tplNames = []string{"t0", "t1", "t2", "t3", "t4"}
+	// names that differ in case only, that are a prefix of one another, with a blank and non-ASCII characters: a
+	// template name is any string (a map key)
+	exoticNames = []string{"t0", "T0", "t1", "t10", "模板 1"}
+	concNames   = []string{"m0", "m1", "m2", "m3", "m4"} // loaded / removed only by the concurrent phase
+	roomyName   = "d0"                                   // the document template loaded after the drawn part of the history
 )
 
 type gstate struct {
@@ -41,6 +44,11 @@ func newG(t *rapid.T) *g {
 	x.elseAny = true
 	x.ctxAny = x.chance(40, "ctxfree")
 	x.absentAny = x.chance(30, "absfree")
+	x.twoEngines = x.chance(10, "twoengines")
+	x.names = tplNames
+	if x.chance(12, "exoticnames") {
+		x.names = exoticNames
+	}
 	return x
 }
 
@@ -395,13 +403,13 @@ func (x *g) editOp(st *gstate) Op {
 
 func (x *g) nameFor(st *gstate, wantNew bool) string {
 	if wantNew {
-		for _, n := range tplNames {
+		for _, n := range x.names {
 			if _, ok := st.loaded[n]; !ok {
 				return n
 			}
 		}
 	}
-	return tplNames[x.uniform(len(tplNames), "name")]
+	return x.names[x.uniform(len(x.names), "name")]
 }
 
 func (x *g) loadedName(st *gstate, l string) string {
@@ -425,48 +433,49 @@ func (x *g) docLoad(st *gstate) Op {
 	return op
 }
 
-func (x *g) childLoad(st *gstate) Op {
-	name := x.nameFor(st, x.chance(75, "newname"))
-	var parent string
+// parentFor draws the name a derived template (loaded under `name`) extends.
+func (x *g) parentFor(st *gstate, name string) string {
 	switch k := x.uniform(100, "parentk"); {
 	case k < 6: // a name that is not loaded: the template stays without parent
-		parent = x.pick([]string{"zz", "t4", "base"}, "absparent")
+		return x.pick([]string{"zz", "t4", "base"}, "absparent")
 	case k < 12: // its own name: the previous version (if any) becomes the parent
-		parent = name
-	default:
-		// prefer text templates (they carry the blocks)
-		ns := st.names()
-		var txt []string
-		for _, n := range ns {
-			if st.loaded[n] == "text" && n != name {
-				txt = append(txt, n)
-			}
-		}
-		// a parent that has a child already gets a second one in a third of the cases (siblings)
-		var withKid []string
-		for _, n := range txt {
-			if st.kids[n] > 0 {
-				withKid = append(withKid, n)
-			}
-		}
-		var derived []string // ... and a derived template gets a child of its own in a fifth (chains)
-		for _, n := range txt {
-			if st.depth[n] >= 1 {
-				derived = append(derived, n)
-			}
-		}
-		if len(withKid) > 0 && x.chance(45, "sibling") {
-			parent = withKid[x.uniform(len(withKid), "parent")]
-		} else if len(derived) > 0 && x.chance(40, "chain") {
-			parent = derived[x.uniform(len(derived), "parent")]
-		} else if len(txt) > 0 && x.chance(90, "textparent") {
-			parent = txt[x.uniform(len(txt), "parent")]
-		} else {
-			parent = ns[x.uniform(len(ns), "parent")]
+		return name
+	}
+	// prefer text templates (they carry the blocks)
+	ns := st.names()
+	var txt []string
+	for _, n := range ns {
+		if st.loaded[n] == "text" && n != name {
+			txt = append(txt, n)
 		}
 	}
-	op := Op{K: "load", Name: name, Src: x.childSource(parent)}
-	st.loaded[name] = "text"
+	// a parent that has a child already gets a second one in a third of the cases (siblings)
+	var withKid []string
+	for _, n := range txt {
+		if st.kids[n] > 0 {
+			withKid = append(withKid, n)
+		}
+	}
+	var derived []string // ... and a derived template gets a child of its own in a fifth (chains)
+	for _, n := range txt {
+		if st.depth[n] >= 1 {
+			derived = append(derived, n)
+		}
+	}
+	switch {
+	case len(withKid) > 0 && x.chance(45, "sibling"):
+		return withKid[x.uniform(len(withKid), "parent")]
+	case len(derived) > 0 && x.chance(40, "chain"):
+		return derived[x.uniform(len(derived), "parent")]
+	case len(txt) > 0 && x.chance(90, "textparent"):
+		return txt[x.uniform(len(txt), "parent")]
+	}
+	return ns[x.uniform(len(ns), "parent")]
+}
+
+// bound does the bookkeeping of a load of `name` that extends `parent`.
+func (st *gstate) bound(name, parent, kind string) {
+	st.loaded[name] = kind
 	delete(st.kids, name) // a new version: nothing is bound below it yet
 	st.kids[parent]++
 	if _, ok := st.loaded[parent]; ok && parent != name {
@@ -474,6 +483,41 @@ func (x *g) childLoad(st *gstate) Op {
 	} else {
 		delete(st.depth, name)
 	}
+}
+
+func (x *g) childLoad(st *gstate) Op {
+	name := x.nameFor(st, x.chance(75, "newname"))
+	parent := x.parentFor(st, name)
+	op := Op{K: "load", Name: name, Src: x.childSource(parent)}
+	st.bound(name, parent, "text")
+	return op
+}
+
+// derivedDoc makes a base document a derived template: its first paragraph is {{extends "parent"}}, followed by
+// paragraphs that override one or two blocks (markers and content in one paragraph, or in three).
+func (x *g) derivedDoc(d *DocSpec, parent string) *DocSpec {
+	head := []DocElem{{Runs: []DocRun{{T: `{{extends "` + parent + `"}}`}}}}
+	n := 1 + x.uniform(2, "dovn")
+	at := x.uniform(len(blockNames), "dovat")
+	for i := 0; i < n; i++ {
+		b := blockNames[(at+i)%len(blockNames)]
+		body := x.pick([]string{"DOC", "DERIVED", "文"}, "dovmark") + strconv.Itoa(x.intn(0, 9, "dovmarkn")) + " {{" + x.docVar() + "}}"
+		if x.chance(50, "dov3") {
+			head = append(head, DocElem{Runs: []DocRun{{T: `{{#block "` + b + `"}}`}}}, DocElem{Runs: []DocRun{x.fmtRun(body)}}, DocElem{Runs: []DocRun{{T: "{{/block}}"}}})
+		} else {
+			head = append(head, DocElem{Runs: []DocRun{x.fmtRun(`{{#block "` + b + `"}}` + body + "{{/block}}")}})
+		}
+	}
+	d.Elems = append(head, d.Elems...)
+	return d
+}
+
+// docChildLoad: LoadTemplateFromDocument of a document whose text starts with {{extends ...}}.
+func (x *g) docChildLoad(st *gstate) Op {
+	name := x.nameFor(st, x.chance(75, "newname"))
+	parent := x.parentFor(st, name)
+	op := Op{K: "loaddoc", Name: name, Doc: x.derivedDoc(x.docSpec(), parent)}
+	st.bound(name, parent, "doc")
 	return op
 }
 
@@ -483,12 +527,34 @@ func (x *g) renderOp(st *gstate) Op {
 	if len(st.loaded) > 0 && x.chance(92, "rloaded") {
 		op.Name = x.loadedName(st, "rname")
 	} else {
-		op.Name = tplNames[x.uniform(len(tplNames), "rname")]
+		op.Name = x.names[x.uniform(len(x.names), "rname")]
+	}
+	return op
+}
+
+// otherOp: a call on another engine, under the names of this history (same names, other sources).
+func (x *g) otherOp(st *gstate) Op {
+	op := Op{K: "other", Name: x.names[x.uniform(len(x.names), "oname")]}
+	if len(st.loaded) > 0 && x.chance(70, "oloaded") {
+		op.Name = x.loadedName(st, "oname2")
+	}
+	switch k := x.uniform(100, "osub"); {
+	case k < 50:
+		op.Sub, op.Src = "load", "OTHER"+strconv.Itoa(x.intn(0, 9, "omark"))+" "+x.plainSource()
+	case k < 75:
+		op.Sub, op.Entry, op.Data = "render", x.uniform(2, "oentry"), x.intn(0, 2, "odata")
+	case k < 90:
+		op.Sub = "remove"
+	default:
+		op.Sub = "clear"
 	}
 	return op
 }
 
 func (x *g) op(st *gstate) Op {
+	if x.twoEngines && x.chance(25, "other") {
+		return x.otherOp(st)
+	}
 	if len(st.loaded) == 0 {
 		switch k := x.uniform(100, "opk0"); {
 		case k < 70:
@@ -498,7 +564,7 @@ func (x *g) op(st *gstate) Op {
 		case k < 94:
 			return x.renderOp(st)
 		case k < 97:
-			return Op{K: "remove", Name: tplNames[x.uniform(len(tplNames), "rmname")]}
+			return Op{K: "remove", Name: x.names[x.uniform(len(x.names), "rmname")]}
 		default:
 			return Op{K: "clear"}
 		}
@@ -506,7 +572,11 @@ func (x *g) op(st *gstate) Op {
 	switch k := x.uniform(100, "opk"); {
 	case k < 17:
 		return x.plainLoad(st)
+	case k < 38:
+		return x.childLoad(st)
 	case k < 41:
+		return x.docChildLoad(st)
+	case k < 42:
 		return x.childLoad(st)
 	case k < 50:
 		return x.docLoad(st)
@@ -519,7 +589,7 @@ func (x *g) op(st *gstate) Op {
 		if x.chance(85, "rmloaded") {
 			op.Name = x.loadedName(st, "rmname")
 		} else {
-			op.Name = tplNames[x.uniform(len(tplNames), "rmname")]
+			op.Name = x.names[x.uniform(len(x.names), "rmname")]
 		}
 		delete(st.loaded, op.Name)
 		delete(st.kids, op.Name)
@@ -529,6 +599,52 @@ func (x *g) op(st *gstate) Op {
 		st.loaded, st.kids, st.depth = map[string]string{}, map[string]int{}, map[string]int{}
 		return Op{K: "clear"}
 	}
+}
+
+// bulk draws the loads (and a few removals) that bring the number of names alive on the engine past a power of
+// two or ten: names b0, b1, ... b10, ... (prefixes of one another), short sources of their own; in a third of the
+// cases they form inheritance chains of up to 12 levels whose root defines 12 blocks k0..k11 and whose n-th
+// level overrides block k<n>.
+func (x *g) bulk(st *gstate) []Op {
+	n := []int{11, 17, 33, 65, 65, 66, 66, 70, 70, kit.Scale(66, 130)}[x.uniform(10, "bulkn")]
+	chains := x.chance(35, "bulkchains")
+	var ops []Op
+	for i := 0; i < n; i++ {
+		name := "b" + strconv.Itoa(i)
+		lvl := i % 12
+		var src string
+		switch {
+		case chains && lvl == 0:
+			src = "R" + strconv.Itoa(i) + " {{" + x.variable().S + "}}"
+			for k := 0; k < 12; k++ {
+				src += "\n{{#block \"k" + strconv.Itoa(k) + "\"}}d" + strconv.Itoa(k) + "{{/block}}"
+			}
+		case chains:
+			parent := "b" + strconv.Itoa(i-1)
+			src = "{{extends \"" + parent + "\"}}\n{{#block \"k" + strconv.Itoa(lvl) + "\"}}L" + strconv.Itoa(i) + " {{" + x.variable().S + "}}{{/block}}"
+			st.kids[parent]++
+			st.depth[name] = lvl
+		case i%7 == 3:
+			src = "B" + strconv.Itoa(i) + ": {{#each tags}}{{this}},{{/each}}"
+			x.usedLists["tags"] = true
+		default:
+			src = "B" + strconv.Itoa(i) + " {{" + x.variable().S + "}}"
+		}
+		ops = append(ops, Op{K: "load", Name: name, Src: src})
+		st.loaded[name] = "text"
+	}
+	// a few of them go again (b1 is not b10)
+	for i, k := 0, x.intn(0, 2, "bulkrm"); i < k; i++ {
+		name := "b" + strconv.Itoa(x.intn(0, minInt(n-1, 12), "bulkrmi"))
+		if _, ok := st.loaded[name]; ok {
+			ops = append(ops, Op{K: "remove", Name: name}, Op{K: "render", Name: name, Entry: x.uniform(2, "bulkrmentry")})
+			st.renders++
+			delete(st.loaded, name)
+			delete(st.kids, name)
+			delete(st.depth, name)
+		}
+	}
+	return ops
 }
 
 // conc draws the concurrent phase: renders of a few loaded names (equal and different names in different
@@ -575,9 +691,19 @@ func (x *g) conc(st *gstate) *Conc {
 	if race {
 		nw = x.intn(2, 6, "nworkers")
 	}
+	many := x.chance(3, "manyworkers") // past 8 / 16 goroutines, one or two calls each
+	if many {
+		nw = []int{9, 10, 17}[x.uniform(3, "nworkersmany")]
+		if race && nw > 10 {
+			nw = 10
+		}
+	}
 	for w := 0; w < nw; w++ {
 		var jobs []Op
 		nj := x.intn(1, 4, "njobs")
+		if many {
+			nj = x.intn(1, 2, "njobs")
+		}
 		for j := 0; j < nj; j++ {
 			if (w < 2 && j == 0) || x.chance(68, "jrender") {
 				name := R[x.uniform(len(R), "jname")]
@@ -587,16 +713,17 @@ func (x *g) conc(st *gstate) *Conc {
 				jobs = append(jobs, Op{K: "render", Name: name, Entry: x.uniform(2, "jentry"), Data: x.intn(0, 2, "jdata")})
 				continue
 			}
-			switch k := x.uniform(100, "jmut"); {
-			case k < 45:
+			k := x.uniform(100, "jmut")
+			switch {
+			case k < 40:
 				if n := takeFree(); n != "" {
 					jobs = append(jobs, Op{K: "load", Name: n, Src: x.plainSource()})
 				}
-			case k < 55:
+			case k < 50:
 				if n := takeFree(); n != "" {
 					jobs = append(jobs, Op{K: "loaddoc", Name: n, Doc: x.docSpec()})
 				}
-			case k < 78:
+			case k < 70:
 				if n := takeFree(); n != "" {
 					jobs = append(jobs, Op{K: "remove", Name: n})
 				}
@@ -619,7 +746,11 @@ func (x *g) conc(st *gstate) *Conc {
 				p := parents[x.uniform(len(parents), "jparent")]
 				reserved[p] = true
 				if n := takeFree(); n != "" {
-					jobs = append(jobs, Op{K: "load", Name: n, Src: x.childSource(p)})
+					if k >= 85 { // ... loaded from a document
+						jobs = append(jobs, Op{K: "loaddoc", Name: n, Doc: x.derivedDoc(x.docSpec(), p)})
+					} else {
+						jobs = append(jobs, Op{K: "load", Name: n, Src: x.childSource(p)})
+					}
 				}
 			}
 		}
@@ -674,11 +805,34 @@ func genCase(t *rapid.T) Case {
 			minDatas = 2
 		}
 	}
+	// the same call many times in a row (past the 10th / 16th / 32nd time)
+	if !race && len(st.loaded) > 0 && x.chance(2, "burst") {
+		op := Op{K: "render", Name: x.loadedName(st, "burstname"), Entry: x.uniform(2, "burstentry"), Data: x.intn(0, 2, "burstdata")}
+		n := []int{10, 11, 17, kit.Scale(11, 33)}[x.uniform(4, "burstn")]
+		if st.loaded[op.Name] == "doc" { // every render of a document template is observed through its saved package
+			n = 10 + x.uniform(2, "burstn2")
+		}
+		for i := 0; i < n; i++ {
+			c.Ops = append(c.Ops, op)
+			st.renders++
+		}
+	}
+	// many templates alive on the engine at once (past 10 / 16 / 32 / 64 / 128 names)
+	bulk := map[string]bool{}
+	if (!race && x.chance(4, "bulk")) || (race && x.chance(1, "bulk")) {
+		for _, op := range x.bulk(st) {
+			c.Ops = append(c.Ops, op)
+			bulk[op.Name] = true
+		}
+	}
 	// closing renders: what does every loaded name produce after all that happened?
 	for _, n := range st.names() {
 		pc := 75
 		if st.depth[n] >= 1 { // derived templates: what they render depends on the most
 			pc = 92
+		}
+		if len(bulk) > 0 && pc > 60 { // most of the many: which of them a defect hits is anybody's guess
+			pc = 60
 		}
 		if !race && x.chance(pc, "closing") {
 			op := Op{K: "render", Name: n, Entry: x.uniform(2, "centry"), Data: x.intn(0, 2, "cdata")}
@@ -742,12 +896,21 @@ func describe(res *kit.Result, c *Case, x *runner, ranConc bool) {
 		sk.WriteString(";")
 	}
 	concRenders, concMut, sameName := 0, 0, false
+	concDocDerived, concDocDerivedWorker := 0, -1
+	concMutWorkers := map[int]bool{}
 	if c.Conc != nil {
 		sk.WriteString("||")
 		first := map[string]int{}
 		for wi, w := range c.Conc.Workers {
 			for _, j := range w {
 				sk.WriteString(j.K[:2] + ":" + j.Name + ",")
+				if j.K != "render" {
+					concMutWorkers[wi] = true
+				}
+				if j.K == "loaddoc" && verOf(j, -1).extends != "" {
+					concDocDerived++
+					concDocDerivedWorker = wi
+				}
 				if j.K == "render" {
 					concRenders++
 					if fw, ok := first[j.Name]; ok && fw != wi {
@@ -837,16 +1000,62 @@ func describe(res *kit.Result, c *Case, x *runner, ranConc bool) {
 	lab(c.Conc != nil, "conc:present")
 	lab(ranConc && concMut > 0, "conc:with-loads/removals")
 	lab(ranConc && sameName, "conc:same-name-in-2-goroutines")
+	lab(ranConc && concDocDerived > 0, "conc:derived-template-loaded-from-document")
+	lab(ranConc && concDocDerived > 0 && (len(concMutWorkers) > 1 || (len(concMutWorkers) == 1 && !concMutWorkers[concDocDerivedWorker])), "conc:derived-document-load+mutation-in-other-goroutine")
+	lab(ranConc && len(c.Conc.Workers) >= 9, "conc:goroutines>=9")
+	lab(x.sawDocDerived, "load:document-extends-bound")
+	lab(x.otherCalls > 0, "other-engine:calls-in-between")
+	lab(x.maxLive >= 10, "engine:names-alive>=10")
+	lab(x.maxLive > 64, "engine:names-alive>64")
+	burst, run := 0, 0
+	for i, op := range c.Ops {
+		if op.K == "render" && i > 0 && c.Ops[i-1].K == "render" && c.Ops[i-1].Name == op.Name && c.Ops[i-1].Data == op.Data && c.Ops[i-1].Entry == op.Entry {
+			run++
+		} else {
+			run = 0
+		}
+		if run > burst {
+			burst = run
+		}
+	}
+	lab(burst >= 9, "render:same-call>=10-times-in-a-row")
+	exotic := false
+	for _, op := range c.Ops {
+		for _, n := range exoticNames[1:] {
+			exotic = exotic || (op.Name == n && n != "t1")
+		}
+	}
+	lab(exotic, "names:case/prefix/blank/non-ascii")
 	lab(x.tainted, "tainted")
 	res.Label("datas:" + strconv.Itoa(len(c.Datas)))
 	types := map[string]bool{}
+	typedAny, typedItemSlice, longList := false, false, false
 	for _, d := range c.Datas {
+		for _, im := range d.Images {
+			lab(im.Fmt == "broken" || im.Fmt == "nofile", "data:unusable-picture")
+		}
 		lab(len(d.Images) > 0, "data:images")
 		lab(len(d.Lists) > 0, "data:lists")
 		for _, v := range d.Vars {
 			types[v.T] = true
+			typedAny = typedAny || v.typed()
+		}
+		for _, l := range d.Lists {
+			longList = longList || len(l) >= 10
+			for _, it := range l {
+				typedAny = typedAny || it.typed()
+				for _, f := range it.M {
+					switch f.T {
+					case "as", "ai", "af", "am":
+						typedItemSlice = true
+					}
+				}
+			}
 		}
 	}
+	lab(typedAny, "data:values-of-other-go-types")
+	lab(typedItemSlice, "data:item-field-is-typed-slice")
+	lab(longList, "data:list>=10-items")
 	lab(types["i"] || types["l"] || types["f"], "data:numbers")
 
 	seqRule := x.loads >= 3 && x.boundLoads >= 1 && x.renders >= 2 && x.rendersAfterChange >= 1
